@@ -123,3 +123,17 @@ claim("C18",
       "(equality, rule per class, each rule form's own round trip, counts, objects, equations); bijections are round-tripped in C12.",
       "Trusted: as C01; json is a C boundary so all data crossing it is concrete - the solver's part is covering the decision space.",
       "CrossHair symbolic execution (pattern D: solver-enumerated settings, universes) + z3", "DESIGN.md 2/C18")
+claim("C12",
+      "Bounded symbolic execution over pairs of universes: the two indices of a pair are solver variables (all ordered pairs of the "
+      "64 two-state REG tables, of 17 binary and 12 ternary pattern sets of the word example); on every path both specifications are "
+      "found by the real searcher, the isomorphism test is run in both orders and reflexively, and a constructed bijection is applied "
+      "to every brute-force object up to size 5 (image = second class, injective, inverse both ways), again after a JSON round trip. "
+      "Plus traced checks of the permutation inverse and the parameter-dictionary equivalence.",
+      "Trusted: as C01; brute-force word enumeration for the repository's word example.",
+      "CrossHair symbolic execution (pattern D: solver-enumerated pairs) + z3", "DESIGN.md 2/C12")
+claim("C13",
+      "Bounded symbolic execution over pairs of searchers: pair indices are solver variables, groups = finder variant x pack (plain, "
+      "symmetry, inferral: start class inside a non-trivial equivalence class); on every path two fresh searchers go through the real "
+      "finder, which must answer None or two specifications that count their own start class correctly, pass the C02 oracle and are "
+      "isomorphic - and never raise.",
+      "Trusted: as C01.", "CrossHair symbolic execution (pattern D: solver-enumerated pairs) + z3", "DESIGN.md 2/C13")
